@@ -310,11 +310,15 @@ def quad_mesh(rng, style=None, renum=True, n=None, build=True):
             affine = False
             hx = np.diff(x).min()
             hy = np.diff(y).min()
+            # every second distorted mesh moves only some vertices: exactly affine and general cells side by side
+            moved = np.ones(p.shape[1]) if rng.random() < 0.5 else (rng.random(p.shape[1]) < 0.3).astype(float)
+            if not moved.any():
+                moved[int(rng.integers(p.shape[1]))] = 1.0
             for attempt in range(6):
                 amp = 0.3 / 2 ** attempt
                 q = p.copy()
-                q[0] += snap(rng.uniform(-amp, amp, size=p.shape[1]) * hx, 12)
-                q[1] += snap(rng.uniform(-amp, amp, size=p.shape[1]) * hy, 12)
+                q[0] += snap(rng.uniform(-amp, amp, size=p.shape[1]) * hx, 12) * moved
+                q[1] += snap(rng.uniform(-amp, amp, size=p.shape[1]) * hy, 12) * moved
                 if _quad_convex(q, t).all():
                     p = q
                     break
@@ -429,7 +433,10 @@ def hex_mesh(rng, style=None, renum=True, build=True):
         if style == "jiggled":
             affine = planar = False
             h = min(np.diff(a).min() for a in ax)
-            p = p + snap(rng.uniform(-0.12, 0.12, size=p.shape) * h, 12)
+            moved = np.ones(p.shape[1]) if rng.random() < 0.5 else (rng.random(p.shape[1]) < 0.3).astype(float)
+            if not moved.any():
+                moved[int(rng.integers(p.shape[1]))] = 1.0
+            p = p + snap(rng.uniform(-0.12, 0.12, size=p.shape) * h, 12) * moved[None, :]
     else:
         qp, qt, _, qaff = quad_mesh(rng, style=str(rng.choice(["distorted", "sheared"])), renum=False,
                                     n=(int(rng.integers(1, 4)), int(rng.integers(1, 3))), build=False)
